@@ -37,7 +37,7 @@ TYPES = ["integer", "length", "oid", "bitstring", "octet", "sequence",
 
 def budget(tier):
     if tier == "quick":
-        return dict(runs=400000, wall=60, chunk=2000)
+        return dict(runs=250000, wall=60, chunk=2000)
     return dict(runs=3000000, wall=600, chunk=4000)
 
 
